@@ -176,15 +176,13 @@ def run(chk, ctx):
     if unknown:
         chk.undecide('C12.D', 'library calls without a model',
                      '; '.join(sorted(set(unknown))[:3]))
-    deco = []
-    for fi in funcs:
-        for d in fi.node.decorator_list:
-            txt = ast.unparse(d)
-            if txt not in ('classmethod', 'staticmethod'):
-                deco.append('%s: @%s' % (fi.short, txt))
+    deco, unknown_deco = models.wrappers(prog, funcs)
     chk.ob('C12.D', 'no wrapper on the encode side', not deco,
-           'no decorated function on the encode side' if not deco else
+           'no caching wrapper on the encode side' if not deco else
            'result may depend on call history through %s' % deco)
+    if unknown_deco:
+        chk.undecide('C12.D', 'decorators without a model',
+                     '; '.join(unknown_deco[:3]))
     chk.assume('logging is an effect on the log, not on the result')
     chk.units['abstract_runs'] = runs
 
